@@ -135,7 +135,9 @@ class ConformalElectionModel(BaseElectionModel.BaseElectionModel, ABC):
         upper_bound = (1 + alpha) / 2
         lower_bound = (1 - alpha) / 2
 
-        train_rows = math.floor(self.n_train * conf_frac)
+        # with exactly the minimum number of reporting units the fraction can round down to zero rows,
+        # and an empty training set cannot be fit: always keep at least one unit to train on
+        train_rows = max(math.floor(self.n_train * conf_frac), 1)
         train_data = reporting_units_shuffled[:train_rows]
 
         # the fixed effects in train_data will be a subset of the fixed effect of reporting_units since all
